@@ -192,6 +192,8 @@ func runC02(c *Ctx) {
 	}
 	checkSackRelative(c)
 	checkListeningBudget(c)
+	checkUnreachablePredicate(c, "R02.1")
+	checkSackRelaxedPolicy(c)
 	checkQuoteHelpers(c)
 }
 
@@ -368,6 +370,32 @@ func checkInclusiveBounds(c *Ctx, d Driver, L *ssa.Function) {
 		}
 	}
 	_ = n
+}
+
+// checkSackRelaxedPolicy is R02.8: the SACK variant is specified to run with relaxed quoted-source checking (its probes leave
+// through a kernel TCP connection; behind source NAT the quote carries the translated source). The only place that builds its
+// parameters from a request sets the switch to constant true; without it every time-exceeded quote is rejected behind NAT.
+func checkSackRelaxedPolicy(c *Ctx) {
+	R := c.R
+	n := 0
+	sp := c.P.SSAPkgs["traceroute"]
+	for _, f := range c.P.ModFuncs {
+		if sp == nil || core.FuncPkg(f) != sp.Pkg || f.Parent() != nil || f.Signature.Results().Len() < 1 || !isNamed(f.Signature.Results().At(0).Type(), core.ModulePath+"/sack", "Params") {
+			continue
+		}
+		fn := core.FuncName(f)
+		rps, _ := core.ReturnPaths(c.P, f, 500)
+		for _, rp := range rps {
+			// error returns hand back the zero value
+			if len(rp.Results) > 1 && !rp.Results[len(rp.Results)-1].IsConst("nil") {
+				continue
+			}
+			n++
+			v := core.ProjField(rp.Results[0], "LoosenICMPSrc")
+			R.Check(v != nil && v.IsConst("true"), "R02.8", fn+"#sack-relaxed", rp.Ret.Pos(), fn, "SACK parameters are built with the relaxed source switch on", fmt.Sprintf("SACK parameters are built with LoosenICMPSrc = %v: the SACK variant then checks the quoted source strictly and loses every intermediate hop behind a source NAT", v))
+		}
+	}
+	R.Floor("R02.8:sack-params-builders", n, 1)
 }
 
 // checkListeningBudget is R02.4b: the parallel engine listens for TracerouteTimeout plus one SendDelay per probe – the budget
